@@ -35,6 +35,9 @@ func runC01(c *run.Ctx) {
 		cfg.Kinds = world.AllWorkloadKinds[:7]
 	}
 	w := world.GenNPWorld(g, cfg)
+	if c.Idx%7 == 3 {
+		world.AddDefaultNamespaceWorkloads(g, w, cfg)
+	}
 	r.Hash = w.Hash()
 	r.Feat(w.Features...)
 	for _, f := range w.Features {
